@@ -1,5 +1,6 @@
 /- C20 — helper lemmas: arming arithmetic of activeTimer, state-machine invariant per operation -/
 import TboxModel.C20.Proofs
+import TboxModel.C20.CronProofs
 namespace Tbox.C20
 
 theorem delayMs_exact (r ms : Nat) (hr : r < U32) (h1 : 1 ≤ r) (hms : ms < 1000) :
@@ -20,24 +21,47 @@ theorem oneshot_lt (sod t : Nat) (hs : sod < D) (ht : t + 2 * D ≤ U32) : nextO
   · simp only [hge, if_true]; omega
   · simp only [hge, if_false]; omega
 
-theorem calcNext_good (a : Alarm) (cal : Calendar) (t nl : Nat) (hs : a.sod < D) (ht : t + 368 * D ≤ U32)
-    (h : calcNext a cal t = some nl) : Earliest (Matches a cal) t nl ∧ nl < t + 368 * D := by
+/-- the three classic computations stay within 368 days (and below 2^32) -/
+theorem calcNext_near (a : Alarm) (cal : Calendar) (t nl : Nat) (hc : a.cls ≠ .cron) (hs : a.sod < D) (ht : t + 368 * D ≤ U32)
+    (h : calcNext a cal t = some nl) : nl < t + 368 * D := by
   have hD := D_eq
+  unfold calcNext at h
+  cases hcl : a.cls with
+  | weekly =>
+    simp only [hcl] at h
+    have := weekly_some a.sod a.mask t nl hs (by omega) h
+    omega
+  | oneshot =>
+    simp only [hcl, Option.some.injEq] at h
+    subst h
+    have := oneshot_lt a.sod t hs (by omega); omega
+  | workday =>
+    simp only [hcl] at h
+    have := workday_some a.sod cal a.wd t nl hs ht h
+    omega
+  | cron => exact absurd hcl hc
+
+/-- whatever the computation returns (below 2200 days ahead, no wrap) is the earliest matching instant -/
+theorem calcNext_good (a : Alarm) (cal : Calendar) (t nl : Nat) (hs : a.sod < D) (ht : t + 2200 * D ≤ U32)
+    (h : calcNext a cal t = some nl) : Earliest (Matches a cal) t nl := by
+  have hD := D_eq
+  have hU := U32_eq
   unfold calcNext at h
   unfold Matches
   cases hc : a.cls with
   | weekly =>
     simp only [hc] at h ⊢
-    have := weekly_some a.sod a.mask t nl hs (by omega) h
-    exact ⟨this.1, by omega⟩
+    exact (weekly_some a.sod a.mask t nl hs (by omega) h).1
   | oneshot =>
     simp only [hc, Option.some.injEq] at h ⊢
     subst h
-    exact ⟨oneshot_earliest a.sod t hs (by omega), by have := oneshot_lt a.sod t hs (by omega); omega⟩
+    exact oneshot_earliest a.sod t hs (by omega)
   | workday =>
     simp only [hc] at h ⊢
-    have := workday_some a.sod cal a.wd t nl hs ht h
-    exact ⟨this.1, by omega⟩
+    exact (workday_some a.sod cal a.wd t nl hs (by omega) h).1
+  | cron =>
+    simp only [hc] at h ⊢
+    exact Cron.nextCron_some a.expr t cronScan nl h
 
 @[simp] theorem armed_target (a : Alarm) (e : Env) (T d : Nat) : (armed a e T d).target = T := rfl
 @[simp] theorem armed_timer (a : Alarm) (e : Env) (T d : Nat) : (armed a e T d).timer = some (e.monoMs + d) := rfl
@@ -50,12 +74,12 @@ theorem activeTimer_of_none (a : Alarm) (e : Env)
 
 theorem activeTimer_of_some (a : Alarm) (e : Env) (nl : Nat)
     (hc : calcNext a e.cal (addOff (a.base e) a.offset) = some nl) :
-    activeTimer a e = (armed a e (subOff nl a.offset) (delayMs (w32 (subOff nl a.offset + U32 - e.sec)) e.ms), true) := by
+    activeTimer a e = (armed a e (subOff (w32 nl) a.offset) (delayMs (w32 (subOff (w32 nl) a.offset + U32 - e.sec)) e.ms), true) := by
   unfold activeTimer; simp only [hc]
 
 /-- the arithmetic of activeTimer without wrap (`start` = the base of the search, not before `cur`) -/
 theorem arm_arith (cur start : Nat) (off : Int) (nl ms : Nat) (hcs : cur ≤ start) (hr : InRange start off)
-    (h1 : addOff start off < nl) (h2 : nl < addOff start off + 368 * D) (hms : ms < 1000) :
+    (h1 : addOff start off < nl) (h2 : nl < addOff start off + 2200 * D) (hms : ms < 1000) :
     ((subOff nl off : Nat) : Int) + off = nl ∧ start < subOff nl off ∧
     delayMs (w32 (subOff nl off + U32 - cur)) ms + ms = (subOff nl off - cur) * 1000 := by
   obtain ⟨r1, r2, r3⟩ := hr
@@ -74,9 +98,27 @@ theorem base_ge (a : Alarm) (e : Env) : e.sec ≤ a.base e ∧ a.target ≤ a.ba
 
 theorem env_ms_lt (e : Env) : e.ms < 1000 := by unfold Env.ms; omega
 
+theorem farOk_of_some {a : Alarm} {e : Env} {nl : Nat} (hf : FarOk a e)
+    (hc : calcNext a e.cal (addOff (a.base e) a.offset) = some nl) : nl < addOff (a.base e) a.offset + 2200 * 86400 := by
+  unfold FarOk at hf; rw [hc] at hf; exact hf
+
+/-- weekly / one-shot / workday alarms are always `FarOk` in range -/
+theorem farOk_classic (a : Alarm) (e : Env) (hc : a.cls ≠ .cron) (hs : a.sod < D) (hr : InRange (a.base e) a.offset) : FarOk a e := by
+  unfold FarOk
+  cases h : calcNext a e.cal (addOff (a.base e) a.offset) with
+  | none => trivial
+  | some nl =>
+    have hrange : addOff (a.base e) a.offset + 368 * D ≤ U32 := by
+      obtain ⟨r1, r2, r3⟩ := hr
+      simp only [addOff, U32_eq, D_eq]; omega
+    have := calcNext_near a e.cal _ nl hc hs hrange h
+    simp only [D_eq] at this
+    show nl < _
+    omega
+
 /-- what a successful activeTimer establishes (no uint32 wrap in range) -/
 theorem activeTimer_spec (a : Alarm) (e : Env) (hs : a.sod < D)
-    (hr : InRange (a.base e) a.offset) (hok : (activeTimer a e).2 = true) :
+    (hr : InRange (a.base e) a.offset) (hf : FarOk a e) (hok : (activeTimer a e).2 = true) :
     ∃ nl T d, calcNext a e.cal (addOff (a.base e) a.offset) = some nl ∧
       activeTimer a e = (armed a e T d, true) ∧
       (T : Int) + a.offset = nl ∧ a.base e < T ∧ d + e.ms = (T - e.sec) * 1000 ∧
@@ -84,13 +126,17 @@ theorem activeTimer_spec (a : Alarm) (e : Env) (hs : a.sod < D)
   cases hc : calcNext a e.cal (addOff (a.base e) a.offset) with
   | none => rw [activeTimer_of_none a e hc] at hok; cases hok
   | some nl =>
-    have hrange : addOff (a.base e) a.offset + 368 * D ≤ U32 := by
+    have hfar := farOk_of_some hf hc
+    have hrange : addOff (a.base e) a.offset + 2200 * D ≤ U32 := by
       obtain ⟨r1, r2, r3⟩ := hr
       simp only [addOff, U32_eq, D_eq]; omega
+    have hw : w32 nl = nl := w32_of_lt (by simp only [D_eq] at hrange; omega)
     have hg := calcNext_good a e.cal _ nl hs hrange hc
-    have har := arm_arith e.sec (a.base e) a.offset nl e.ms (base_ge a e).1 hr hg.1.1 hg.2 (env_ms_lt e)
+    have har := arm_arith e.sec (a.base e) a.offset nl e.ms (base_ge a e).1 hr hg.1 (by simp only [D_eq]; exact hfar) (env_ms_lt e)
+    have heq := activeTimer_of_some a e nl hc
+    rw [hw] at heq
     exact ⟨nl, subOff nl a.offset, delayMs (w32 (subOff nl a.offset + U32 - e.sec)) e.ms, rfl,
-      activeTimer_of_some a e nl hc, har.1, har.2.1, har.2.2, hg.1⟩
+      heq, har.1, har.2.1, har.2.2, hg⟩
 
 /-- activeTimer changes nothing but timer / state / target -/
 theorem activeTimer_fields (a : Alarm) (e : Env) :
@@ -127,10 +173,24 @@ theorem initAlarm_inv (a : Alarm) (sod : Int) (m : List Bool) (wd : Bool) (h : I
   unfold initAlarm
   split
   · exact h
+  unfold initClassic
+  split
+  · exact h
   · rename_i hr
     split
     · exact h
     · split
+      · exact h
+      · exact inv_of_idle (by simp) (by simpa using h.idle hr)
+
+theorem initCron_inv (a : Alarm) (x : Option Cron.Expr) (h : Inv a) : Inv (initCron a x).1 := by
+  unfold initCron
+  split
+  · exact h
+  · split
+    · exact h
+    · rename_i hr
+      split
       · exact h
       · exact inv_of_idle (by simp) (by simpa using h.idle hr)
 
@@ -192,10 +252,9 @@ theorem calendarChanged_idle (a : Alarm) (e : Env) (h : a.st ≠ .running) : cal
 
 theorem expire_inv (a : Alarm) (e : Env) : Inv (expire a e).1 := by
   unfold expire
-  cases a.cls with
-  | oneshot => exact inv_of_idle (by simp) (by simp)
-  | weekly => exact activeTimer_inv _ e (inv_of_idle (by simp) (by simp))
-  | workday => exact activeTimer_inv _ e (inv_of_idle (by simp) (by simp))
+  split
+  · exact inv_of_idle (by simp) (by simp)
+  · exact activeTimer_inv _ e (inv_of_idle (by simp) (by simp))
 
 theorem expire_served (a : Alarm) (e : Env) : (expire a e).2 = (a.target, decide (a.st = .running)) := by
   unfold expire; cases a.cls <;> rfl
